@@ -5,7 +5,6 @@ import (
 	"strings"
 
 	"github.com/mit-pdos/go-journal/vrt"
-	"github.com/mit-pdos/go-nfsd/nfs"
 	"verif/fsx"
 	"verif/reffs"
 	"verif/report"
@@ -76,14 +75,14 @@ func c10After(w *World, path []fsx.Op, r fsx.Reply, implFail bool, mis *reffs.Mi
 	// recovery from the image at this point (no shutdown)
 	vrt.Quiesce()
 	img := w.Disk.Snapshot()
-	srvC := nfs.MakeNfs(vdisk.New(img))
+	srvC := mkNfs(vdisk.New(img))
 	c := fsx.ExactDump(srvC, probe)
 	if a != c {
 		viol("running-vs-recovered-image", "the running server and a server recovered from its current disk image differ: "+firstDiff(a, c))
 	}
 	// clean restart on the same disk
 	w.Srv.ShutdownNfs()
-	w.Srv = nfs.MakeNfs(w.Disk)
+	w.Srv = mkNfs(w.Disk)
 	b := fsx.ExactDump(w.Srv, probe)
 	if a != b {
 		viol("running-vs-restarted", "before and after a clean restart a client observes different things: "+firstDiff(a, b))
